@@ -55,8 +55,20 @@ func prefixScanGated(w *load.World, c *core.Collector) {
 				if (n == "bytes.HasPrefix" || n == "strings.HasPrefix") && len(x.Call.Args) == 2 {
 					return ssax.Prov(x.Call.Args[1])["param:"+prefix.Name()]
 				}
+				// the head of the key compared with the whole prefix
+				if (n == "bytes.Equal" || n == "slices.Equal") && len(x.Call.Args) == 2 {
+					return x.Call.Args[0] == ssa.Value(prefix) || x.Call.Args[1] == ssa.Value(prefix)
+				}
 			case *ssa.BinOp:
 				if x.Op == token.EQL {
+					// bytes.Compare(head, prefix) == 0
+					for _, pr := range [][2]ssa.Value{{x.X, x.Y}, {x.Y, x.X}} {
+						if cc, ok := pr[0].(*ssa.Call); ok && staticName(cc) == "bytes.Compare" && len(cc.Call.Args) == 2 {
+							if k, ok := pr[1].(*ssa.Const); ok && k.Value != nil && k.Int64() == 0 {
+								return cc.Call.Args[0] == ssa.Value(prefix) || cc.Call.Args[1] == ssa.Value(prefix)
+							}
+						}
+					}
 					_, lx := x.X.Type().Underlying().(*types.Basic)
 					if lx && (ssax.Prov(x.X)["param:"+prefix.Name()] || ssax.Prov(x.Y)["param:"+prefix.Name()]) {
 						if b, ok := x.X.Type().Underlying().(*types.Basic); ok && b.Info()&types.IsString != 0 {
@@ -938,27 +950,162 @@ func schemaVisitsBothLists(w *load.World, c *core.Collector) {
 	}
 	covered := map[string]bool{}
 	bad := ""
-	for _, g := range append([]*ssa.Function{f}, f.AnonFuncs...) {
+	// a merge of the two lists is fine when the property selects: the _and list on the way on which
+	// the property was found to be "_and", the _or list on the "_or" way
+	byProperty := func(phi *ssa.Phi) bool {
+		fn := phi.Parent()
+		for i, e := range phi.Edges {
+			o := origin(e, 0)
+			var ks []string
+			for k := range o {
+				if k == "And" || k == "Or" {
+					ks = append(ks, k)
+				}
+			}
+			if len(ks) == 0 {
+				continue
+			}
+			if len(ks) > 1 {
+				return false
+			}
+			want := "_" + strings.ToLower(ks[0])
+			pred := phi.Block().Preds[i]
+			okEdge := false
+			for _, tb := range fn.Blocks {
+				ifi, isIf := tb.Instrs[len(tb.Instrs)-1].(*ssa.If)
+				if !isIf {
+					continue
+				}
+				cb, neg, isBo := condBinOp(ifi.Cond, 0)
+				if !isBo || cb.Op != token.EQL && cb.Op != token.NEQ {
+					continue
+				}
+				var other ssa.Value
+				switch {
+				case ssax.Prov(cb.X)["field:Property"]:
+					other = cb.Y
+				case ssax.Prov(cb.Y)["field:Property"]:
+					other = cb.X
+				default:
+					continue
+				}
+				if str, isStr := ssax.ConstString(other); !isStr || str != want {
+					continue
+				}
+				edge := 0
+				if (cb.Op == token.NEQ) != neg {
+					edge = 1
+				}
+				if ssax.OnlyViaEdge(tb, edge, pred) || (tb == pred && tb.Succs[edge] == phi.Block()) {
+					okEdge = true
+				}
+			}
+			if !okEdge {
+				return false
+			}
+		}
+		return true
+	}
+	judge := func(v ssa.Value, at string) {
+		o := origin(v, 0)
+		var ks []string
+		for k := range o {
+			if k == "And" || k == "Or" {
+				ks = append(ks, k)
+			}
+		}
+		sort.Strings(ks)
+		switch len(ks) {
+		case 0: // the filter of an option block, not a list
+		case 1:
+			covered[ks[0]] = true
+		default:
+			// find the merge
+			x := v
+			for i := 0; i < 8 && x != nil; i++ {
+				switch y := x.(type) {
+				case *ssa.UnOp:
+					x = y.X
+					continue
+				case *ssa.IndexAddr:
+					x = y.X
+					continue
+				case *ssa.Index:
+					x = y.X
+					continue
+				case *ssa.Slice:
+					x = y.X
+					continue
+				}
+				break
+			}
+			if phi, isPhi := x.(*ssa.Phi); isPhi && byProperty(phi) {
+				covered["And"], covered["Or"] = true, true
+				return
+			}
+			bad = at
+		}
+	}
+	inModels := func(g *ssa.Function) bool { return load.PkgPath(g) == load.PkgPath(f) }
+	for _, g := range w.Fns {
+		if !inModels(g) || g.Synthetic != "" {
+			continue
+		}
 		for _, b := range g.Blocks {
 			for _, in := range b.Instrs {
 				call, ok := in.(*ssa.Call)
 				if !ok || call.Call.StaticCallee() != f || len(call.Call.Args) == 0 {
 					continue
 				}
-				o := origin(call.Call.Args[0], 0)
-				var ks []string
-				for k := range o {
-					if k == "And" || k == "Or" {
-						ks = append(ks, k)
+				recv := call.Call.Args[0]
+				root := g
+				for root.Parent() != nil {
+					root = root.Parent()
+				}
+				if root == f {
+					judge(recv, w.At(in))
+					continue
+				}
+				// in a helper ("validateSchemaAll(list, schema)"): per call of the helper, what it is handed
+				x := recv
+				var par *ssa.Parameter
+				for i := 0; i < 8 && x != nil && par == nil; i++ {
+					switch y := x.(type) {
+					case *ssa.Parameter:
+						par = y
+					case *ssa.UnOp:
+						x = y.X
+					case *ssa.IndexAddr:
+						x = y.X
+					case *ssa.Index:
+						x = y.X
+					case *ssa.Slice:
+						x = y.X
+					case *ssa.Extract:
+						x = y.Tuple
+					case *ssa.Next:
+						x = y.Iter
+					case *ssa.Range:
+						x = y.X
+					case *ssa.Alloc:
+						x = ssax.SingleStore(y)
+					default:
+						x = nil
 					}
 				}
-				sort.Strings(ks)
-				switch len(ks) {
-				case 0: // the filter of an option block, not a list
-				case 1:
-					covered[ks[0]] = true
-				default:
-					bad = w.At(in)
+				if par == nil || par.Parent() != g {
+					continue
+				}
+				idx := -1
+				for i, q := range g.Params {
+					if q == par {
+						idx = i
+					}
+				}
+				for _, cs := range staticCallSites(w, g) {
+					if idx >= 0 && idx < len(cs.Common().Args) {
+						judge(cs.Common().Args[idx], w.At(cs))
+					}
 				}
 			}
 		}
